@@ -45,11 +45,12 @@ type result struct {
 	LogTail          string        `json:"log_tail,omitempty"`
 	SinceSnap        int           `json:"writes_since_last_snapshot"`
 	FirstStartFailed string        `json:"first_start_failed,omitempty"`
+	TrailingConfig   bool          `json:"log_ends_with_membership_change"`
 }
 
 func gen(c *vf.Ctx, i int) history {
 	r := c.Rand(uint64(i))
-	kinds := []string{"write", "write", "write", "snapshot", "load", "restart", "restart-nosnap"}
+	kinds := []string{"write", "write", "write", "snapshot", "load", "restart", "restart-nosnap", "join-nv"}
 	ops := []nscript.Op{{Kind: "init"}}
 	w, l := 0, 0
 	n := 3 + r.IntN(8)
@@ -114,6 +115,7 @@ func runHistory(dir string, h history) (res result) {
 		return
 	}
 	model := nscript.Model{}
+	nvCount := 0
 	for i, op := range h.Ops {
 		switch op.Kind {
 		case "restart", "restart-nosnap":
@@ -134,7 +136,28 @@ func runHistory(dir string, h history) (res result) {
 				res.Inconcl = fmt.Sprintf("op %d restart not ready: %v", i, err)
 				return
 			}
+		case "join-nv":
+			// a second real process joins as non-voter and is killed again: the log
+			// now ends with a membership change and the configuration lists a node
+			// that the peers file used for the recovery does not
+			nvCount++
+			nv := procnode.New(fmt.Sprintf("nv%d", nvCount), filepath.Join(dir, fmt.Sprintf("nv%d", nvCount)))
+			nv.Args = append(nodeArgs(), "-raft-non-voter")
+			if err := nv.Start(n.RaftAddr); err != nil {
+				res.Inconcl = "join-nv start: " + err.Error()
+				return
+			}
+			err := nv.WaitReady(60 * time.Second)
+			nv.Kill()
+			if err != nil {
+				res.Inconcl = fmt.Sprintf("op %d join-nv: %v", i, err)
+				return
+			}
+			res.TrailingConfig = true
 		default:
+			if op.Kind == "write" || op.Kind == "load" {
+				res.TrailingConfig = false
+			}
 			out, msg := nscript.Exec(n, op, scratch)
 			if out == nscript.Acked {
 				model = model.Apply(op)
@@ -288,7 +311,7 @@ func runHistory(dir string, h history) (res result) {
 }
 
 func run(c *vf.Ctx) {
-	c.Rule("history = seeded sequence of 4-11 ops from {uniquely tagged non-idempotent write, user snapshot, load of a generated database, graceful restart, killed restart} on a single real rqlited process, ended by graceful stop (snapshot-on-close) or SIGKILL; then a generated peers.json (this node, at the old or a new raft address, plus 0-2 unreachable non-voters) is written and the node restarted. Oracle: state read back by a strong read equals the model of acknowledged ops, /nodes equals the peers file, peers.json is renamed, a further write works, and a plain restart gives the same state. non-trivial = at least one acknowledged write/load since the last snapshot before shutdown, or a new address, or extra peers; distinct by history")
+	c.Rule("history = seeded sequence of 4-11 ops from {uniquely tagged non-idempotent write, user snapshot, load of a generated database, graceful restart, killed restart, join of a second real process as non-voter that is killed again (membership change at the log tail)} on a single real rqlited process, ended by graceful stop (snapshot-on-close) or SIGKILL; then a generated peers.json (this node, at the old or a new raft address, plus 0-2 unreachable non-voters) is written and the node restarted. Oracle: state read back by a strong read equals the model of acknowledged ops, /nodes equals the peers file, peers.json is renamed, a further write works, and a plain restart gives the same state. non-trivial = at least one acknowledged write/load since the last snapshot before shutdown, or a new address, or extra peers; distinct by history")
 	c.Assume("single surviving node; extra peers are unreachable non-voters so the node can still elect itself")
 	nH := c.N(12, 200)
 	tmp := vf.TempDir("c33")
@@ -342,6 +365,9 @@ func run(c *vf.Ctx) {
 		c.Count("ending:"+res.H.Ending, 1)
 		if res.SinceSnap > 0 {
 			c.Count("histories_with_unsnapshotted_writes", 1)
+		}
+		if res.TrailingConfig {
+			c.Count("histories_ending_with_membership_change", 1)
 		}
 		if res.SinceSnap > 0 || res.H.NewAddr || len(res.H.Peers) > 1 {
 			b, _ := json.Marshal(res.H)
